@@ -1164,384 +1164,180 @@ theorem enoughFuel_gt (evs : List XmlEvent) : enoughFuel evs > (expand evs).leng
   have := length_expand_le evs
   unfold enoughFuel; omega
 
-/-! ## termination on well-nested event sequences
+/-! ## termination on every event sequence
 
-Invariant: the rest of the input closes the element stack `ns` (`balanced ns r`), and the local
-names the running loops wait for (innermost first) form a subsequence of the local names of `ns`.
-An inner loop may leave early (on an inner element of the same name), but never late: its own end
-tag is still ahead, so the end of the input is only ever read by the report loop. -/
+Every iteration of every loop either consumes one event or returns (end of input inside a nested
+element is a `Parse` error since 34e25d5), and an inner loop hands back a strictly shorter rest, so
+fuel above the number of events is never exhausted. -/
 
-def Good {α : Type} (outer : List Name) (n : Nat) : Outcome (α × List XmlEvent) → Prop
-  | .ok (_, r') => ∃ ns', balanced ns' r' = true ∧ outer.Sublist (ns'.map localName) ∧ r'.length < n
+def Fine {α : Type} (n : Nat) : Outcome (α × List XmlEvent) → Prop
+  | .ok (_, r') => r'.length < n
   | .err _ => True
   | .diverge => False
 
-theorem Good.mono {α : Type} {outer : List Name} {n m : Nat} (h : n ≤ m) :
-    ∀ {o : Outcome (α × List XmlEvent)}, Good outer n o → Good outer m o
-  | .ok (_, _), ⟨ns', a, b, c⟩ => ⟨ns', a, b, by omega⟩
+theorem Fine.mono {α : Type} {n m : Nat} (h : n ≤ m) :
+    ∀ {o : Outcome (α × List XmlEvent)}, Fine n o → Fine m o
+  | .ok (_, _), c => by simp only [Fine] at c ⊢; omega
   | .err _, _ => trivial
   | .diverge, h => h
 
-theorem sublist_cons_of_ne {x y : Name} {l l' : List Name} (h : (x :: l).Sublist (y :: l'))
-    (hne : x ≠ y) : (x :: l).Sublist l' := by
-  cases h with
-  | cons _ h => exact h
-  | cons_cons _ h => exact absurd rfl hne
+theorem fine_ok {α : Type} {n : Nat} {o : Outcome (α × List XmlEvent)} {x : α}
+    {r' : List XmlEvent} (h : Fine n o) (e : o = .ok (x, r')) : r'.length < n := by
+  subst e; exact h
 
-theorem sublist_tail_of_cons {x y : Name} {l l' : List Name} (h : (x :: l).Sublist (y :: l')) :
-    l.Sublist l' := by
-  cases h with
-  | cons _ h => exact (List.sublist_cons_self x l).trans h
-  | cons_cons _ h => exact h
+theorem fine_ne {α : Type} {n : Nat} {o : Outcome (α × List XmlEvent)} (h : Fine n o)
+    (e : o = .diverge) : False := by
+  subst e; exact h
 
-theorem balanced_nil_stack {ns : List Name} (h : balanced ns [] = true) : ns = [] := by
-  cases ns <;> simp_all [balanced]
-
-theorem method_terminates (outer : List Name) : ∀ (fuel : Nat) (r : List XmlEvent) (ns : List Name)
-    (ex : Bool), balanced ns r = true → (sMethod :: outer).Sublist (ns.map localName) →
-    fuel > r.length → Good outer r.length (methodLoop fuel r ex) := by
+theorem method_fine : ∀ (fuel : Nat) (r : List XmlEvent) (ex : Bool),
+    fuel > r.length → Fine (r.length + 1) (methodLoop fuel r ex) := by
   intro fuel
   induction fuel with
-  | zero => intro r _ _ _ _ hf; omega
+  | zero => intro r _ hf; omega
   | succ fuel ih =>
-    intro r ns ex hb hs hf
+    intro r ex hf
     cases r with
-    | nil => rw [balanced_nil_stack hb] at hs; cases hs
+    | nil => simp [methodLoop, Fine]
     | cons e r =>
       simp only [List.length_cons] at hf ⊢
       have hf' : fuel > r.length := by omega
-      cases e with
-      | start n a =>
-        simp only [balanced] at hb
-        have hs' : (sMethod :: outer).Sublist ((n :: ns).map localName) := List.Sublist.cons _ hs
-        have cont := fun ex' => Good.mono (Nat.le_succ _) (ih r (n :: ns) ex' hb hs' hf')
-        simp only [methodLoop]
+      have cont := fun ex' => Fine.mono (Nat.le_succ _) (ih r ex' hf')
+      cases e <;> simp only [methodLoop]
+      case start n a => repeat' split
+                        all_goals first | exact cont _ | trivial
+      case end_ n =>
+        split
+        · simp only [Fine]; omega
+        · exact cont _
+      all_goals first | exact cont _ | trivial
+
+theorem sourcefile_fine : ∀ (fuel : Nat) (r : List XmlEvent) (acc : SrcAcc),
+    fuel > r.length → Fine (r.length + 1) (sourcefileLoop fuel r acc) := by
+  intro fuel
+  induction fuel with
+  | zero => intro r _ hf; omega
+  | succ fuel ih =>
+    intro r acc hf
+    cases r with
+    | nil => simp [sourcefileLoop, Fine]
+    | cons e r =>
+      simp only [List.length_cons] at hf ⊢
+      have hf' : fuel > r.length := by omega
+      have cont := fun acc' => Fine.mono (Nat.le_succ _) (ih r acc' hf')
+      cases e <;> simp only [sourcefileLoop]
+      case start n a => repeat' split
+                        all_goals first | exact cont _ | trivial
+      case end_ n =>
+        split
+        · simp only [Fine]; omega
+        · exact cont _
+      all_goals first | exact cont _ | trivial
+
+theorem class_fine (cls : Name) : ∀ (fuel : Nat) (r : List XmlEvent) (fns : List (Name × Fn)),
+    fuel > r.length → Fine (r.length + 1) (classLoop cls fuel r fns) := by
+  intro fuel
+  induction fuel with
+  | zero => intro r _ hf; omega
+  | succ fuel ih =>
+    intro r fns hf
+    cases r with
+    | nil => simp [classLoop, Fine]
+    | cons e r =>
+      simp only [List.length_cons] at hf ⊢
+      have hf' : fuel > r.length := by omega
+      have cont := fun fns' => Fine.mono (Nat.le_succ _) (ih r fns' hf')
+      cases e <;> simp only [classLoop]
+      case start n a =>
+        have hM := method_fine fuel r false hf'
         repeat' split
-        all_goals first | exact cont _ | trivial
-      | end_ n =>
-        cases ns with
-        | nil => simp [balanced] at hb
-        | cons m ns =>
-          simp only [balanced, Bool.and_eq_true, decide_eq_true_eq] at hb
-          obtain ⟨rfl, hb⟩ := hb
-          simp only [methodLoop]
-          split
-          · exact ⟨ns, hb, sublist_tail_of_cons hs, by omega⟩
-          · rename_i hne
-            exact Good.mono (Nat.le_succ _)
-              (ih r ns ex hb (sublist_cons_of_ne hs (fun e => hne e.symm)) hf')
-      | empty n a =>
-        simp only [balanced] at hb
-        simp only [methodLoop]
-        exact Good.mono (Nat.le_succ _) (ih r ns ex hb hs hf')
-      | text =>
-        simp only [balanced] at hb
-        simp only [methodLoop]
-        exact Good.mono (Nat.le_succ _) (ih r ns ex hb hs hf')
-      | other =>
-        simp only [balanced] at hb
-        simp only [methodLoop]
-        exact Good.mono (Nat.le_succ _) (ih r ns ex hb hs hf')
-      | bad => simp [balanced] at hb
+        all_goals first
+          | exact cont _
+          | trivial
+          | (rename_i hml; have := fine_ok hM hml
+             exact Fine.mono (by omega) (ih _ _ (by omega)))
+          | (rename_i hml; exact (fine_ne hM hml).elim)
+      case end_ n =>
+        split
+        · simp only [Fine]; omega
+        · exact cont _
+      all_goals first | exact cont _ | trivial
 
-theorem sourcefile_terminates (outer : List Name) : ∀ (fuel : Nat) (r : List XmlEvent)
-    (ns : List Name) (acc : SrcAcc), balanced ns r = true →
-    (sSourcefile :: outer).Sublist (ns.map localName) →
-    fuel > r.length → Good outer r.length (sourcefileLoop fuel r acc) := by
+theorem package_fine (pkg : Name) : ∀ (fuel : Nat) (r : List XmlEvent) (m : List (Name × Cov)),
+    fuel > r.length → Fine (r.length + 1) (packageLoop pkg fuel r m) := by
   intro fuel
   induction fuel with
-  | zero => intro r _ _ _ _ hf; omega
+  | zero => intro r _ hf; omega
   | succ fuel ih =>
-    intro r ns acc hb hs hf
+    intro r m hf
     cases r with
-    | nil => rw [balanced_nil_stack hb] at hs; cases hs
+    | nil => simp [packageLoop, Fine]
     | cons e r =>
       simp only [List.length_cons] at hf ⊢
       have hf' : fuel > r.length := by omega
-      cases e with
-      | start n a =>
-        simp only [balanced] at hb
-        have hs' : (sSourcefile :: outer).Sublist ((n :: ns).map localName) :=
-          List.Sublist.cons _ hs
-        have cont := fun acc' => Good.mono (Nat.le_succ _) (ih r (n :: ns) acc' hb hs' hf')
-        simp only [sourcefileLoop]
+      have cont := fun m' => Fine.mono (Nat.le_succ _) (ih r m' hf')
+      cases e <;> simp only [packageLoop]
+      case start n a =>
+        have hS := sourcefile_fine fuel r {} hf'
+        have hC := fun cls => class_fine cls fuel r [] hf'
         repeat' split
-        all_goals first | exact cont _ | trivial
-      | end_ n =>
-        cases ns with
-        | nil => simp [balanced] at hb
-        | cons m ns =>
-          simp only [balanced, Bool.and_eq_true, decide_eq_true_eq] at hb
-          obtain ⟨rfl, hb⟩ := hb
-          simp only [sourcefileLoop]
-          split
-          · exact ⟨ns, hb, sublist_tail_of_cons hs, by omega⟩
-          · rename_i hne
-            exact Good.mono (Nat.le_succ _)
-              (ih r ns acc hb (sublist_cons_of_ne hs (fun e => hne e.symm)) hf')
-      | empty n a =>
-        simp only [balanced] at hb
-        simp only [sourcefileLoop]
-        exact Good.mono (Nat.le_succ _) (ih r ns acc hb hs hf')
-      | text =>
-        simp only [balanced] at hb
-        simp only [sourcefileLoop]
-        exact Good.mono (Nat.le_succ _) (ih r ns acc hb hs hf')
-      | other =>
-        simp only [balanced] at hb
-        simp only [sourcefileLoop]
-        exact Good.mono (Nat.le_succ _) (ih r ns acc hb hs hf')
-      | bad => simp [balanced] at hb
+        all_goals first
+          | exact cont _
+          | trivial
+          | (rename_i hcl; have := fine_ok (hC _) hcl
+             exact Fine.mono (by omega) (ih _ _ (by omega)))
+          | (rename_i hcl; exact (fine_ne (hC _) hcl).elim)
+          | (rename_i hsl; have := fine_ok hS hsl
+             exact Fine.mono (by omega) (ih _ _ (by omega)))
+          | (rename_i hsl; exact (fine_ne hS hsl).elim)
+      case end_ n =>
+        split
+        · simp only [Fine]; omega
+        · exact cont _
+      all_goals first | exact cont _ | trivial
 
-theorem class_terminates (cls : Name) (outer : List Name) : ∀ (fuel : Nat) (r : List XmlEvent)
-    (ns : List Name) (fns : List (Name × Fn)), balanced ns r = true →
-    (sClass :: outer).Sublist (ns.map localName) →
-    fuel > r.length → Good outer r.length (classLoop cls fuel r fns) := by
+theorem report_terminates : ∀ (fuel : Nat) (r : List XmlEvent) (res : List (Name × Cov)),
+    fuel > r.length → reportLoop fuel r res ≠ .diverge := by
   intro fuel
   induction fuel with
-  | zero => intro r _ _ _ _ hf; omega
+  | zero => intro r _ hf; omega
   | succ fuel ih =>
-    intro r ns fns hb hs hf
-    cases r with
-    | nil => rw [balanced_nil_stack hb] at hs; cases hs
-    | cons e r =>
-      simp only [List.length_cons] at hf ⊢
-      have hf' : fuel > r.length := by omega
-      cases e with
-      | start n a =>
-        simp only [balanced] at hb
-        have hs' : (sClass :: outer).Sublist ((n :: ns).map localName) := List.Sublist.cons _ hs
-        have cont := fun fns' => Good.mono (Nat.le_succ _) (ih r (n :: ns) fns' hb hs' hf')
-        simp only [classLoop]
-        by_cases hn : localName n = sMethod
-        · have hs2 : (sMethod :: sClass :: outer).Sublist ((n :: ns).map localName) := by
-            simp only [List.map_cons, hn]; exact List.Sublist.cons_cons _ hs
-          have hM := method_terminates (sClass :: outer) fuel r (n :: ns) false hb hs2 hf'
-          simp only [hn, if_true]
-          split
-          · split
-            · split
-              · cases hml : methodLoop fuel r false with
-                | ok p =>
-                  obtain ⟨ex, r'⟩ := p
-                  rw [hml] at hM
-                  obtain ⟨ns', hb', hs'', hl⟩ := hM
-                  simp only
-                  exact Good.mono (by omega) (ih r' ns' _ hb' hs'' (by omega))
-                | err k => trivial
-                | diverge => rw [hml] at hM; exact hM.elim
-              · trivial
-            · trivial
-          · trivial
-        · simp only [hn, if_false]; exact cont _
-      | end_ n =>
-        cases ns with
-        | nil => simp [balanced] at hb
-        | cons m ns =>
-          simp only [balanced, Bool.and_eq_true, decide_eq_true_eq] at hb
-          obtain ⟨rfl, hb⟩ := hb
-          simp only [classLoop]
-          split
-          · exact ⟨ns, hb, sublist_tail_of_cons hs, by omega⟩
-          · rename_i hne
-            exact Good.mono (Nat.le_succ _)
-              (ih r ns fns hb (sublist_cons_of_ne hs (fun e => hne e.symm)) hf')
-      | empty n a =>
-        simp only [balanced] at hb
-        simp only [classLoop]
-        exact Good.mono (Nat.le_succ _) (ih r ns fns hb hs hf')
-      | text =>
-        simp only [balanced] at hb
-        simp only [classLoop]
-        exact Good.mono (Nat.le_succ _) (ih r ns fns hb hs hf')
-      | other =>
-        simp only [balanced] at hb
-        simp only [classLoop]
-        exact Good.mono (Nat.le_succ _) (ih r ns fns hb hs hf')
-      | bad => simp [balanced] at hb
-
-theorem package_terminates (pkg : Name) (outer : List Name) : ∀ (fuel : Nat) (r : List XmlEvent)
-    (ns : List Name) (m : List (Name × Cov)), balanced ns r = true →
-    (sPackage :: outer).Sublist (ns.map localName) →
-    fuel > r.length → Good outer r.length (packageLoop pkg fuel r m) := by
-  intro fuel
-  induction fuel with
-  | zero => intro r _ _ _ _ hf; omega
-  | succ fuel ih =>
-    intro r ns m hb hs hf
-    cases r with
-    | nil => rw [balanced_nil_stack hb] at hs; cases hs
-    | cons e r =>
-      simp only [List.length_cons] at hf ⊢
-      have hf' : fuel > r.length := by omega
-      cases e with
-      | start n a =>
-        simp only [balanced] at hb
-        have hs' : (sPackage :: outer).Sublist ((n :: ns).map localName) := List.Sublist.cons _ hs
-        have cont := fun m' => Good.mono (Nat.le_succ _) (ih r (n :: ns) m' hb hs' hf')
-        simp only [packageLoop]
-        by_cases hn : localName n = sClass
-        · have hs2 : (sClass :: sPackage :: outer).Sublist ((n :: ns).map localName) := by
-            simp only [List.map_cons, hn]; exact List.Sublist.cons_cons _ hs
-          simp only [hn, if_true]
-          split
-          · rename_i fq _
-            have hC := class_terminates (afterLast cSlash fq) (sPackage :: outer) fuel r (n :: ns)
-              [] hb hs2 hf'
-            cases hcl : classLoop (afterLast cSlash fq) fuel r [] with
-            | ok p =>
-              obtain ⟨fns, r'⟩ := p
-              rw [hcl] at hC
-              obtain ⟨ns', hb', hs'', hl⟩ := hC
-              simp only
-              exact Good.mono (by omega) (ih r' ns' _ hb' hs'' (by omega))
-            | err k => trivial
-            | diverge => rw [hcl] at hC; exact hC.elim
-          · trivial
-        · simp only [hn, if_false]
-          by_cases hn2 : localName n = sSourcefile
-          · have hs2 : (sSourcefile :: sPackage :: outer).Sublist ((n :: ns).map localName) := by
-              simp only [List.map_cons, hn2]; exact List.Sublist.cons_cons _ hs
-            have hS := sourcefile_terminates (sPackage :: outer) fuel r (n :: ns) {} hb hs2 hf'
-            simp only [hn2, if_true]
-            split
-            · cases hsl : sourcefileLoop fuel r {} with
-              | ok p =>
-                obtain ⟨sa, r'⟩ := p
-                rw [hsl] at hS
-                obtain ⟨ns', hb', hs'', hl⟩ := hS
-                simp only
-                exact Good.mono (by omega) (ih r' ns' _ hb' hs'' (by omega))
-              | err k => trivial
-              | diverge => rw [hsl] at hS; exact hS.elim
-            · trivial
-          · simp only [hn2, if_false]; exact cont _
-      | end_ n =>
-        cases ns with
-        | nil => simp [balanced] at hb
-        | cons m' ns =>
-          simp only [balanced, Bool.and_eq_true, decide_eq_true_eq] at hb
-          obtain ⟨rfl, hb⟩ := hb
-          simp only [packageLoop]
-          split
-          · exact ⟨ns, hb, sublist_tail_of_cons hs, by omega⟩
-          · rename_i hne
-            exact Good.mono (Nat.le_succ _)
-              (ih r ns m hb (sublist_cons_of_ne hs (fun e => hne e.symm)) hf')
-      | empty n a =>
-        simp only [balanced] at hb
-        simp only [packageLoop]
-        exact Good.mono (Nat.le_succ _) (ih r ns m hb hs hf')
-      | text =>
-        simp only [balanced] at hb
-        simp only [packageLoop]
-        exact Good.mono (Nat.le_succ _) (ih r ns m hb hs hf')
-      | other =>
-        simp only [balanced] at hb
-        simp only [packageLoop]
-        exact Good.mono (Nat.le_succ _) (ih r ns m hb hs hf')
-      | bad => simp [balanced] at hb
-
-theorem report_terminates : ∀ (fuel : Nat) (r : List XmlEvent) (ns : List Name)
-    (res : List (Name × Cov)), balanced ns r = true → fuel > r.length →
-    reportLoop fuel r res ≠ .diverge := by
-  intro fuel
-  induction fuel with
-  | zero => intro r _ _ _ hf; omega
-  | succ fuel ih =>
-    intro r ns res hb hf
+    intro r res hf
     cases r with
     | nil => simp [reportLoop]
     | cons e r =>
       simp only [List.length_cons] at hf
       have hf' : fuel > r.length := by omega
-      cases e with
-      | start n a =>
-        simp only [balanced] at hb
-        simp only [reportLoop]
-        by_cases hn : localName n = sPackage
-        · have hs2 : (sPackage :: []).Sublist ((n :: ns).map localName) := by
-            simp only [List.map_cons, hn]; exact List.Sublist.cons_cons _ (List.nil_sublist _)
-          simp only [hn, if_true]
-          split
-          · rename_i pkg _
-            have hP := package_terminates pkg [] fuel r (n :: ns) [] hb hs2 hf'
-            cases hpl : packageLoop pkg fuel r [] with
-            | ok p =>
-              obtain ⟨pr, r'⟩ := p
-              rw [hpl] at hP
-              obtain ⟨ns', hb', _, hl⟩ := hP
-              simp only
-              exact ih r' ns' _ hb' (by omega)
-            | err k => simp
-            | diverge => rw [hpl] at hP; exact hP.elim
-          · simp
-        · simp only [hn, if_false]; exact ih r (n :: ns) res hb hf'
-      | end_ n =>
-        cases ns with
-        | nil => simp [balanced] at hb
-        | cons m' ns =>
-          simp only [balanced, Bool.and_eq_true, decide_eq_true_eq] at hb
-          simp only [reportLoop]
-          exact ih r ns res hb.2 hf'
-      | empty n a =>
-        simp only [balanced] at hb
-        simp only [reportLoop]
-        exact ih r ns res hb hf'
-      | text =>
-        simp only [balanced] at hb
-        simp only [reportLoop]
-        exact ih r ns res hb hf'
-      | other =>
-        simp only [balanced] at hb
-        simp only [reportLoop]
-        exact ih r ns res hb hf'
-      | bad => simp [balanced] at hb
+      cases e <;> simp only [reportLoop]
+      case start n a =>
+        have hP := fun pkg => package_fine pkg fuel r [] hf'
+        repeat' split
+        all_goals first
+          | exact ih _ _ hf'
+          | (intro h; cases h; done)
+          | (rename_i hpl; have := fine_ok (hP _) hpl
+             exact ih _ _ (by omega))
+          | (rename_i hpl; exact (fine_ne (hP _) hpl).elim)
+      all_goals first | exact ih _ _ hf' | (intro h; cases h; done)
 
-theorem balanced_expand (evs : List XmlEvent) : ∀ ns, balanced ns (expand evs) = balanced ns evs := by
-  induction evs with
-  | nil => intro ns; rfl
-  | cons e evs ih =>
-    intro ns
-    cases e with
-    | empty n a => simp [expand, balanced, ih]
-    | start n a => simp [expand, balanced, ih]
-    | end_ n => cases ns <;> simp [expand, balanced, ih]
-    | text => simp [expand, balanced, ih]
-    | other => simp [expand, balanced, ih]
-    | bad => simp [expand, balanced]
-
-/-- on a well-nested event sequence the parser returns (a result or an error) -/
-theorem parse_terminates (evs : List XmlEvent) (h : WellNested evs) (fuel : Nat)
+/-- the parser returns (a result or an error) on every event sequence -/
+theorem parse_terminates (evs : List XmlEvent) (fuel : Nat)
     (hf : fuel ≥ enoughFuel evs) : parse evs fuel ≠ .diverge := by
   unfold parse
-  apply report_terminates fuel (expand evs) [] []
-  · rw [balanced_expand]; exact h
-  · have := enoughFuel_gt evs; omega
+  apply report_terminates fuel (expand evs) []
+  have := enoughFuel_gt evs; omega
 
-/-! ## end of input inside a nested element: the loop never returns -/
+/-! ## end of input inside a nested element is a `Parse` error -/
 
-theorem sourcefileLoop_eof (fuel : Nat) (acc : SrcAcc) : sourcefileLoop fuel [] acc = .diverge := by
-  induction fuel with
-  | zero => rfl
-  | succ f ih => simpa [sourcefileLoop] using ih
+theorem sourcefileLoop_eof (fuel : Nat) (acc : SrcAcc) :
+    sourcefileLoop (fuel + 1) [] acc = .err .parse := rfl
 
-theorem methodLoop_eof (fuel : Nat) (ex : Bool) : methodLoop fuel [] ex = .diverge := by
-  induction fuel with
-  | zero => rfl
-  | succ f ih => simpa [methodLoop] using ih
+theorem methodLoop_eof (fuel : Nat) (ex : Bool) : methodLoop (fuel + 1) [] ex = .err .parse := rfl
 
 theorem classLoop_eof (cls : Name) (fuel : Nat) (fns : List (Name × Fn)) :
-    classLoop cls fuel [] fns = .diverge := by
-  induction fuel with
-  | zero => rfl
-  | succ f ih => simpa [classLoop] using ih
+    classLoop cls (fuel + 1) [] fns = .err .parse := rfl
 
 theorem packageLoop_eof (pkg : Name) (fuel : Nat) (m : List (Name × Cov)) :
-    packageLoop pkg fuel [] m = .diverge := by
-  induction fuel with
-  | zero => rfl
-  | succ f ih => simpa [packageLoop] using ih
+    packageLoop pkg (fuel + 1) [] m = .err .parse := rfl
 
 /-! ## canonical renderers are read back -/
 
@@ -1895,7 +1691,7 @@ def exTruncated : List XmlEvent :=
    .start [109, 101, 116, 104, 111, 100] [([110, 97, 109, 101], [109]), ([108, 105, 110, 101], [49])]]
 
 
-theorem exTruncated_diverges (fuel : Nat) : parse exTruncated fuel = .diverge := by
+theorem exTruncated_parse_error (fuel : Nat) : parse exTruncated (fuel + 5) = .err .parse := by
   have h1 : localName [114, 101, 112, 111, 114, 116] ≠ sPackage := by decide
   have h2 : localName [112, 97, 99, 107, 97, 103, 101] = sPackage := by decide
   have h3 : localName [99, 108, 97, 115, 115] = sClass := by decide
@@ -1907,13 +1703,8 @@ theorem exTruncated_diverges (fuel : Nat) : parse exTruncated fuel = .diverge :=
   have g4 : getAttr sLine [([110, 97, 109, 101], [109]), ([108, 105, 110, 101], [49])]
       = .ok [49] := by rfl
   have g5 : parseUnsigned U32MAX [49] = some 1 := by decide
-  rcases fuel with _ | _ | _ | _ | f
-  · rfl
-  · rfl
-  · rfl
-  · rfl
-  · simp only [parse, exTruncated, expand, reportLoop, h1, h2, if_false, if_true, g1, packageLoop,
-      h3, g2, classLoop, h4, g3, g4, g5, methodLoop_eof]
+  simp only [parse, exTruncated, expand, reportLoop, h1, h2, if_false, if_true, g1, packageLoop,
+    h3, g2, classLoop, h4, g3, g4, g5, methodLoop_eof]
 
 theorem lineAttrs_error_kind : ∀ (attrs : List Attr) (seen : List Name) (acc : LineAcc)
     (k : ErrKind), lineAttrs seen attrs acc = .error k → k = .parse := by
